@@ -30,7 +30,7 @@ REQUIRED = ["read_data", "src_i", "enable_written", "pending_cleared", "zero_wri
 
 
 def n_cases(tier):
-    return 180 if tier == "quick" else 2700
+    return 480 if tier == "quick" else 6000
 
 
 def gen_case(rng, tier, idx):
